@@ -273,10 +273,10 @@ Qed.
 (* the scheduler as it was before the repair ran the later stages of a skipped
    pipeline on an empty stdin: `false && out a | g` printed g and returned g's
    exit number *)
-Definition w_false : cmd := {| c_exit := 1; c_tok := []; c_fwd := false |}.
-Definition w_true : cmd := {| c_exit := 0; c_tok := []; c_fwd := false |}.
-Definition w_out (t : N) : cmd := {| c_exit := 0; c_tok := [t; 10%N]; c_fwd := false |}.
-Definition w_g (t : N) (e : Z) : cmd := {| c_exit := e; c_tok := [t; 10%N]; c_fwd := true |}.
+Definition w_false : cmd := {| c_exit := 1; c_tok := []; c_fwd := false; c_err := [] |}.
+Definition w_true : cmd := {| c_exit := 0; c_tok := []; c_fwd := false; c_err := [] |}.
+Definition w_out (t : N) : cmd := {| c_exit := 0; c_tok := [t; 10%N]; c_fwd := false; c_err := [] |}.
+Definition w_g (t : N) (e : Z) : cmd := {| c_exit := e; c_tok := [t; 10%N]; c_fwd := true; c_err := [] |}.
 
 Definition witness_skipped_pipeline : program :=
   [(JSemi, (w_false, [])); (JAnd, (w_out 97, [w_g 103 0]))].
